@@ -569,4 +569,3 @@ func lastCommandBody(a *ast.Ast) []ast.AstExpression {
 	}
 	return nil
 }
-
